@@ -174,7 +174,7 @@ func genC07(r *Rng, idx int, tier string) *World {
 		w.Extra["kinds"] = strings.Join(kinds, ",")
 	case k < 8:
 		w.Variant = "c"
-		w.Opts = RouterOpts{Name: "q", Lock: r.Pct(50), Interceptors: []string{"digit"}, Trace: r.Pct(30)}
+		w.Opts = RouterOpts{Name: "q", Lock: r.Pct(50), Interceptors: []string{"digit"}, Trace: r.Pct(30), CORS: pick(r, []string{"", "list", "list", "cred"})}
 		w.Pool.Fresh, w.Pool.Newest, w.Pool.Oldest, w.Pool.Rand, w.Pool.Drop = pick(r, []int{0, 1}), 4, 1, 2, pick(r, []int{0, 15})
 		pats := []string{"/u/{id}", "/u/{id}/p/{page:digit}", "/s/{name}.html", "/a", "/t/{x}/{y}/{z}", "/{top}"}
 		hid := 100
@@ -196,7 +196,12 @@ func genC07(r *Rng, idx int, tier string) *World {
 						vals[tk.Name] = fmt.Sprintf("%d", 1000+uniq) // globally unique parameter values
 					}
 				}
-				ops = append(ops, Op{T: t, K: "req", Req: &Req{Method: pick(r, []string{"GET", "POST", "HEAD", "OPTIONS", "PUT"}), Path: p.Fill(vals)}, Pattern: sp, Params: vals})
+				q := &Req{Method: pick(r, []string{"GET", "POST", "HEAD", "OPTIONS", "PUT"}), Path: p.Fill(vals)}
+				if w.Opts.CORS != "" && r.Pct(50) { // a CORS preflight: serving must stay read-only on the router
+					q.Method = "OPTIONS"
+					q.Hdr = map[string]string{"Origin": "https://a.com", "Access-Control-Request-Method": "GET", "Access-Control-Request-Headers": pick(r, []string{"content-type", "Content-Type", "X-Token, Content-Type", "x-other"})}
+				}
+				ops = append(ops, Op{T: t, K: "req", Req: q, Pattern: sp, Params: vals})
 			}
 			w.Tasks = append(w.Tasks, ops)
 		}
